@@ -438,6 +438,16 @@ def vanish_oracle(it):
             return "unexpected result %s" % s
         if sc == "carrier" and (o["carrier"] != "Ok" or o["before"] != "Ok"):
             return "send to a receiver in transit failed (%s / %s)" % (o["carrier"], o["before"])
+    elif sc == "execchild":
+        if not o.get("unpacked"):
+            return "the carrier message with the receiving end could not be received (%s)" % o.get("carrier")
+        s = o["send"]
+        if s == "hang":
+            return "send to a receiver the program had dropped blocked for ever: a child process exec'd meanwhile still holds the receiving end"
+        if s == "Ok":
+            return "send to a receiver the program had dropped reported success: a child process exec'd meanwhile still holds the receiving end"
+        if not s.startswith("Err"):
+            return "unexpected result %s" % s
     elif sc == "drainkill":
         if o["signals"]:
             return ("a multi-fragment send whose receiver was killed while reading terminated the sending process with signal %s in %d of %d rounds "
@@ -482,6 +492,9 @@ def check_C09(chk):
             during.append({"id": next(nid), "scen": "during", "len": L, "proc": proc})
     during.append({"id": next(nid), "scen": "carrier", "len": 4 << 20})
     during.append({"id": next(nid), "scen": "drainkill", "len": 32 << 20, "rounds": 200 if thorough else 40})
+    for L in (100, 1 << 20):
+        for proc in (0, 1):      # proc = how the carrier was received: 0 try_recv, 1 try_recv_timeout
+            during.append({"id": next(nid), "scen": "execchild", "len": L, "proc": proc})
     jobs.append((None, during))
     with concurrent.futures.ThreadPoolExecutor(max_workers=4) as ex:
         items = [it for r in ex.map(lambda j: run_vanish(bins["default"], j[0], j[1]), jobs) for it in r]
